@@ -472,6 +472,30 @@ func runCase(addr string, c *caseSpec, mid func()) *result {
 	if sess != nil {
 		for i := 0; i < c.NReq; i++ {
 			hs := [][2]string{{strings.ToLower(rig.TagHeader), fmt.Sprintf("%s-%d", tag, i)}}
+			if sess.Peer != nil {
+				// HTTP/2: the request is followed at once (same segment) by frames the server records for
+				// the connection's fingerprint, so that they arrive while the handler computes it
+				sid := sess.TakeStreamID()
+				fields := h2peer.GetFields("front.example", "/c16", hpack.HeaderField{Name: hs[0][0], Value: hs[0][1]})
+				b := h2peer.RawFrame(1, 0x5, sid, sess.Peer.Encode(fields))
+				for k := 0; k < 4; k++ {
+					b = append(b, h2peer.RawFrame(4, 0, 0, []byte{0, 3, 0, 0, 0, byte(100 + k)})...)
+					b = append(b, h2peer.RawFrame(2, 0, sid+100+uint32(2*k), []byte{0, 0, 0, 0, byte(k)})...)
+					b = append(b, h2peer.RawFrame(8, 0, 0, []byte{0, 0, 0, byte(1 + k)})...)
+				}
+				if sess.Peer.WriteRaw(b) != nil {
+					break
+				}
+				if r, ok := sess.Peer.WaitResponse(sid, 10*time.Second); !ok || r.Reset {
+					break
+				}
+				res.Responses++
+				res.ServerDone = true
+				if i == 0 && c.Mid && mid != nil {
+					mid()
+				}
+				continue
+			}
 			resp, err := sess.Do("GET", "/c16", "front.example", hs, nil, 10*time.Second)
 			if err != nil || resp == nil {
 				break
